@@ -168,6 +168,10 @@ def make_cases(seed: int, tier: str, n_cases: int | None = None) -> list[dict]:
             sigma = engine.sample_sigma(rs, dims)
             opts = dict(options, nc=bool(k % 2) if k < 2 else rs.random() < 0.5)
             histories.append([{"sigma": sigma, "options": opts}])
+        # library use: the function behind the command line, called with RELATIVE paths as they are spelled
+        rs = rng(cs, "library")
+        histories.append([{"sigma": {"cwd": rs.choice(["proj", "work", "S", "elsewhere"]), "src_spelling": rs.choice(["rel", "reltrail", "abs"]),
+                                     "out_spelling": rs.choice(["rel", "reltrail", "nested_rel"])}, "options": options, "library_entry": True}])
         # one run with a fault plan: clause 1 also holds for the events of runs that fail or die
         rs = rng(cs, "fault")
         op = rs.choice(["mkdir", "open", "write", "close"])
